@@ -148,8 +148,25 @@ def compile_props(pid):
 
 
 def lint():
-    rc, out = sh(r"grep -rnE '\b(Admitted|admit|Axiom|Parameter|Conjecture|Unset Guard|bypass_check|Admit Obligations)\b' --include=*.v . | grep -v '^./Gen/.*(\*' || true", cwd=COQ)
-    return out.strip()
+    """No declared axioms, no admitted proofs, no disabled kernel checks anywhere in the development
+    (comments are ignored: the words may be used in prose)."""
+    bad = []
+    decl = re.compile(r"^\s*(?:Local\s+|Global\s+|#\[[^\]]*\]\s*)*(Axiom|Axioms|Parameter|Parameters|Conjecture|Conjectures|Admit\s+Obligations|"
+                      r"Unset\s+Guard\s+Checking|Unset\s+Positivity\s+Checking|Unset\s+Universe\s+Checking|Set\s+Bypass)\b")
+    anywhere = re.compile(r"\b(Admitted|admit|give_up|bypass_check)\b")
+    for f in sorted(glob.glob(os.path.join(COQ, "**", "*.v"), recursive=True)):
+        txt = open(f).read()
+        txt = re.sub(r"\(\*.*?\*\)", lambda m: "\n" * m.group(0).count("\n"), txt, flags=re.S)   # drop comments, keep line numbers
+        in_section = 0
+        for ln, line in enumerate(txt.splitlines(), 1):
+            if re.match(r"^\s*Section\b", line):
+                in_section += 1
+            elif re.match(r"^\s*End\b", line) and in_section:
+                in_section -= 1
+            if decl.match(line) or anywhere.search(line) or \
+                    (not in_section and re.match(r"^\s*(Variable|Variables|Hypothesis|Hypotheses)\b", line)):
+                bad.append("%s:%d:%s" % (os.path.relpath(f, COQ), ln, line.strip()[:80]))
+    return "\n".join(bad)
 
 
 # ---------------------------------------------------------------- running
